@@ -93,3 +93,38 @@ package mcp
 //@   ensures @discover-without-meta metaErr == nil && !isNew && method == methodDiscover ==> calls(dispatch) == 0
 //@        && typeIs(result.1, *jsonrpc.Error) && result.1.(*jsonrpc.Error).Code == jsonrpc.CodeMethodNotFound
 //@   ensures @not-initialized metaErr == nil && !isNew && !init && !preInitMethod(method) && method != methodDiscover ==> calls(dispatch) == 0 && result.1 != nil
+
+// A server connection is told about session-state changes; the only implementation records the protocol version.
+//@ func (serverConnection).sessionUpdated
+//@   abstract
+//@   modifies fields(ioConn.protocolVersion)
+//@ func (*ioConn).sessionUpdated [C06]
+//@   requires c != nil
+//@   modifies c.protocolVersion
+
+// initialize: accepted once; a second one is rejected without touching the session state.
+//@ func (*ServerSession).initialize [C06]
+//@   snapshot afterUpdate after call updateState
+//@   ghost wasInit := old(ss.state.InitializeParams != nil)
+//@   modifies *
+//@   requires ss != nil && ss.server != nil && ss.server.opts.Logger != nil
+//@   ensures @nil-params params == nil ==> result.1 != nil && result.0 == nil
+//@   ensures @duplicate-rejected params != nil && wasInit ==> result.1 != nil && result.0 == nil && at(afterUpdate, ss.state) == old(ss.state)
+//@   ensures @accepted params != nil && !wasInit ==> result.1 == nil && result.0 != nil && at(afterUpdate, ss.state.InitializeParams) == params
+//@        && at(afterUpdate, ss.state.InitializedParams) == old(ss.state.InitializedParams)
+//@   ensures @legacy-version params != nil && !wasInit ==> sdkSupports(result.0.ProtocolVersion) && legacy(result.0.ProtocolVersion)
+
+// notifications/initialized: accepted once and only after initialize; otherwise rejected, state untouched and the
+// user's InitializedHandler not run.
+//@ func (*ServerSession).initialized [C06]
+//@   snapshot afterUpdate after call updateState
+//@   track h as userHandler
+//@   ghost wasInit := old(ss.state.InitializeParams != nil)
+//@   ghost wasInitd := old(ss.state.InitializedParams != nil)
+//@   modifies *
+//@   requires ss != nil && ss.server != nil && ss.server.opts.Logger != nil
+//@   ensures @premature-rejected !wasInit ==> result.1 != nil && calls(userHandler) == 0 && at(afterUpdate, ss.state) == old(ss.state)
+//@   ensures @repeated-rejected wasInit && wasInitd ==> result.1 != nil && calls(userHandler) == 0 && at(afterUpdate, ss.state) == old(ss.state)
+//@   ensures @accepted wasInit && !wasInitd ==> result.1 == nil && calls(userHandler) <= 1 && at(afterUpdate, ss.state.InitializedParams) != nil
+//@        && at(afterUpdate, ss.state.InitializeParams) == old(ss.state.InitializeParams)
+//@   ensures @handler-iff-configured wasInit && !wasInitd && ss.server.opts.InitializedHandler != nil ==> calls(userHandler) == 1
